@@ -67,7 +67,9 @@ Inductive wact :=
 | DCloseQ | DJoinThread | DSetFlag | DJoinW (w : nat)
 | FFlushReady | FFeederExit  (* main's feeder of the ready queue *)
 | FFlushDone (w : nat)       (* worker w's feeder of the done queue *)
-| KRecv (w : nat) | KTimeout (w : nat) | KIsSet (w : nat) | KCb (w : nat) | KPut (w : nat) | KExit (w : nat).
+| KRecv (w : nat) | KTimeout (w : nat) | KIsSet (w : nat) | KCb (w : nat) | KPut (w : nat) | KExit (w : nat)
+| KCTimeout (w : nat).        (* ready_queue.get raises Empty although the pipe holds items: the queue's reader lock
+                                stayed taken (queues.py: `if not self._rlock.acquire(block, timeout): raise Empty`) *)
 
 Record wstate := mkWS {
   s_apex : pos; s_par : nat; s_pcap : nat;
@@ -113,6 +115,11 @@ Definition set_nth {T} (l : list T) (w : nat) (x : T) : list T :=
 
 Definition wk_get (s : wstate) (w : nat) : option (wpc * bool) := nth_error (wks s) w.
 
+(* some worker other than [w] is inside ready_queue.get() (it may hold the reader lock) *)
+Definition other_at_get (l : list (wpc * bool)) (w : nat) : bool :=
+  existsb (fun h => negb (Nat.eqb h w) &&
+                    match nth_error l h with Some (KAtGet, _) => true | _ => false end) (seq 0 (length l)).
+
 Definition wk_exited (x : option (wpc * bool)) : bool :=
   match x with Some (KExited _, _) => true | _ => false end.
 
@@ -140,6 +147,10 @@ Definition wenabled (s : wstate) (a : wact) : bool :=
                   | Some (KAtGet, _) => match rq_pipe s with [] => true | _ => false end
                   | _ => false end
   | KIsSet w => match wk_get s w with Some (KAtFlag, _) => true | _ => false end
+  | KCTimeout w => match wk_get s w with
+                   | Some (KAtGet, _) => negb (match rq_pipe s with [] => true | _ => false end)
+                                         && other_at_get (wks s) w
+                   | _ => false end
   | KCb w => match wk_get s w with Some (KInCb _, _) => true | _ => false end
   | KPut w => match wk_get s w with Some (KAtPut _, _) => Nat.ltb 0 (dq_sem s) | _ => false end
   | KExit w => match wk_get s w with
@@ -246,6 +257,8 @@ Section WStep.
         end
     | KTimeout w =>
         match wk_get s w with Some (_, ev) => set_wk s w (KAtFlag, ev) | None => s end
+    | KCTimeout w =>      (* the worker cannot tell this Empty from the other one *)
+        match wk_get s w with Some (_, ev) => set_wk s w (KAtFlag, ev) | None => s end
     | KIsSet w =>
         match wk_get s w with
         | Some (_, ev) => set_wk s w (if wflag s then (leave ev 0, ev) else (KAtGet, ev))
@@ -273,7 +286,7 @@ Definition all_wacts (par : nat) : list wact :=
   [DPut; DRecv; DTimeout; DCloseQ; DJoinThread; DSetFlag; FFlushReady; FFeederExit]
   ++ map DJoinW (seq 0 par) ++ map FFlushDone (seq 0 par)
   ++ map KRecv (seq 0 par) ++ map KTimeout (seq 0 par) ++ map KIsSet (seq 0 par)
-  ++ map KCb (seq 0 par) ++ map KPut (seq 0 par) ++ map KExit (seq 0 par).
+  ++ map KCb (seq 0 par) ++ map KPut (seq 0 par) ++ map KExit (seq 0 par) ++ map KCTimeout (seq 0 par).
 
 Definition wenabled_list (s : wstate) : list wact := filter (wenabled s) (all_wacts (s_par s)).
 
@@ -282,22 +295,28 @@ Definition wact_eqb (a b : wact) : bool :=
   | DPut, DPut | DRecv, DRecv | DTimeout, DTimeout | DCloseQ, DCloseQ | DJoinThread, DJoinThread
   | DSetFlag, DSetFlag | FFlushReady, FFlushReady | FFeederExit, FFeederExit => true
   | DJoinW x, DJoinW y | FFlushDone x, FFlushDone y | KRecv x, KRecv y | KTimeout x, KTimeout y
-  | KIsSet x, KIsSet y | KCb x, KCb y | KPut x, KPut y | KExit x, KExit y => Nat.eqb x y
+  | KIsSet x, KIsSet y | KCb x, KCb y | KPut x, KPut y | KExit x, KExit y | KCTimeout x, KCTimeout y => Nat.eqb x y
   | _, _ => false
   end.
 
 Definition wsame_set (a b : list wact) : bool :=
   forallb (fun x => existsb (wact_eqb x) b) a && forallb (fun x => existsb (wact_eqb x) a) b.
 
-Fixpoint wreplay (bad : pos -> bool) (s : wstate) (tr : list (list wact * wact)) (i : nat)
+Definition is_kctimeout (a : wact) : bool := match a with KCTimeout _ => true | _ => false end.
+
+(* [cont]: the recorded run admitted Empty under reader-lock contention; otherwise the
+   implementation's scheduler never offered it and it is left out of the comparison *)
+Fixpoint wreplay_c (cont : bool) (bad : pos -> bool) (s : wstate) (tr : list (list wact * wact)) (i : nat)
   : wstate + nat :=
   match tr with
   | [] => inl s
   | (en, a) :: tr' =>
-      if wsame_set en (wenabled_list s) && wenabled s a
-      then wreplay bad (wstep bad s a) tr' (S i)
+      if wsame_set en (filter (fun x => cont || negb (is_kctimeout x)) (wenabled_list s)) && wenabled s a
+      then wreplay_c cont bad (wstep bad s a) tr' (S i)
       else inr i
   end.
+
+Definition wreplay := wreplay_c false.
 
 Definition wreturned (s : wstate) : bool := match d_pc s with DReturned => true | _ => false end.
 
@@ -305,6 +324,6 @@ Definition wreturned (s : wstate) : bool := match d_pc s with DReturned => true 
 Definition wpolling (s : wstate) (a : wact) : bool :=
   match a with
   | DTimeout => true
-  | KTimeout _ | KIsSet _ => negb (wflag s)
+  | KTimeout _ | KIsSet _ | KCTimeout _ => negb (wflag s)
   | _ => false
   end.
